@@ -199,6 +199,13 @@ func (cc *clientCxn) onWaitForCommand() {
 	if length == 0 {
 		simBeforeLock(&cc.mu, "cc.mu")
 		cc.mu.Lock()
+		if cc.closing {
+			// a close request arrived since the state machine last looked: do not
+			// start a read that nobody would interrupt (the terminate event is queued)
+			cc.mu.Unlock()
+			simAfterUnlock(&cc.mu, "cc.mu")
+			return
+		}
 		cc.waiting = true
 		cc.mu.Unlock()
 		simAfterUnlock(&cc.mu, "cc.mu")
